@@ -5,6 +5,7 @@ This module handles parsing of CSV files and other transaction formats.
 """
 
 import csv
+import math
 import re
 from datetime import datetime
 
@@ -45,6 +46,9 @@ def parse_amount(amount_str, decimal_separator='.'):
         amount_str = amount_str.replace(',', '')
 
     result = float(amount_str)
+    if not math.isfinite(result):
+        # float() also accepts 'nan', 'inf', 'infinity': those are not amounts
+        raise ValueError(f"Not a finite amount: {amount_str}")
     return -result if negative else result
 
 
